@@ -55,7 +55,8 @@ def init_worker(devices: int | None = None, x64_first: bool | None = None):
         x64_first = os.environ.get("MDPSIM_X64_FIRST", "1") == "1"
     os.environ["JAX_PLATFORMS"] = "cpu"
     os.environ["MDPAX_VERIF"] = "1"
-    os.environ["XLA_FLAGS"] = f"--xla_force_host_platform_device_count={int(devices)}"
+    extra = [f for f in os.environ.get("XLA_FLAGS", "").split() if not f.startswith("--xla_force_host_platform_device_count")]
+    os.environ["XLA_FLAGS"] = " ".join([f"--xla_force_host_platform_device_count={int(devices)}"] + extra)
     os.environ.setdefault("TF_CPP_MIN_LOG_LEVEL", "3")
     for p in (REPO_SRC, VERIF_DIR):
         if p not in sys.path:
